@@ -207,7 +207,18 @@ def do_str(s):
                 trig = "bytes-decode"
         else:
             trig = escape_trigger(s)
-        return {"r": "exc", "exc": type(e).__name__, "trig": trig}
+        # where the exception arose: inside parse_unyt_expr (tokenizer / compiler / evaluation of the
+        # text) or afterwards (table look-up, unit data)
+        phase = "unit-data"
+        if isinstance(s, str):
+            try:
+                parse_unyt_expr(s)
+            except UnitParseError:
+                phase = "unit-data"
+            except BaseException as e2:  # noqa: BLE001
+                if type(e2) is type(e):
+                    phase = "parse"
+        return {"r": "exc", "exc": type(e).__name__, "trig": trig, "phase": phase}
     return describe(u)
 
 
